@@ -58,7 +58,7 @@ def tweak(rng, root, ctx):
             t.content = words(rng, k) if rng.random() < 0.9 else words(rng, k).replace(" ", rng.choice(["  ", "\xa0", " \xa0 "]))
             if k in (4, 5):
                 ctx.count("title_at_threshold")
-        mode = rng.choice(["keep", "absent", "text", "paras", "markdown", "inline_only", "empty_section"])
+        mode = rng.choice(["keep", "absent", "text", "paras", "markdown", "inline_only", "empty_section", "nested_lists", "nested_lists"])
         if mode != "keep":
             for a in ds.find_all_children("abstract"):
                 ds.remove_child(a)
@@ -82,6 +82,19 @@ def tweak(rng, root, ctx):
                     a.add_child(Node("markdown", content=words(rng, k) if k else "x"))
                     if rng.random() < 0.5:
                         a.content = "own"
+                elif mode == "nested_lists":
+                    # the words sit in para/itemizedlist/listitem/para (and deeper): still para descendants of the abstract
+                    outer = Node("para", content=words(rng, 2))
+                    lst = Node(rng.choice(["itemizedlist", "orderedlist"]))
+                    left = max(0, k - 2)
+                    items = max(1, rng.randint(1, 3))
+                    for i in range(items):
+                        li = Node("listitem")
+                        share = left // items + (1 if i < left % items else 0)
+                        li.add_child(Node("para", content=words(rng, share) if share else None))
+                        lst.add_child(li)
+                    outer.add_child(lst)
+                    a.add_child(outer)
                 elif mode == "inline_only":
                     p = Node("para")
                     p.add_child(Node("emphasis", content=words(rng, 3)))
@@ -135,8 +148,16 @@ def tweak(rng, root, ctx):
             n.content = None
             n.remove_children()
             p = Node("para")
-            if rng.random() < 0.5:
+            k = rng.random()
+            if k < 0.35:
                 p.add_child(Node("emphasis", content="inline only"))
+            elif k < 0.7:
+                # not empty at all: the text sits in a list item's para
+                lst = Node("itemizedlist")
+                li = Node("listitem")
+                li.add_child(Node("para", content="text inside a list item"))
+                lst.add_child(li)
+                p.add_child(lst)
             n.add_child(p)
             ctx.count("empty_descriptions_planted")
         elif n.name == "physical":
